@@ -172,8 +172,10 @@ class C12:
         bad = None
         n = 0
         mv, cs, ce = 1.0, 10.0, 20.0
-        for endv in (10.5, 11.0, 11.5):
-            for startv in (18.5, 19.0, 19.5):
+        for endv in (10.5, 11.0, 11.5, 25.0):
+            for startv in (5.0, 18.5, 19.0, 19.5):
+                if startv > endv:
+                    continue  # not a geometry
                 env = {m: mv, ("attr", clip, "start_time"): cs, ("attr", clip, "end_time"): ce, st: startv, en: endv}
                 outs = []
                 for r in s.returns:
@@ -188,7 +190,7 @@ class C12:
                 if len(outs) != 1 or outs[0][0] != "const" or bool(outs[0][1]) != want:
                     bad = (startv, endv, outs, want)
         if bad is None:
-            ctx.ok("R12.5", site, f"true iff end > clip.start + m and start < clip.end - m on all {n} orderings (touching = out)")
+            ctx.ok("R12.5", site, f"true iff end > clip.start + m and start < clip.end - m on all {n} placements around both clip edges (touching = out)")
         else:
             startv, endv, outs, want = bad
             ctx.bad("R12.5", self.file, "is_in_clip", "return end > clip.start + m and start < clip.end - m",
